@@ -153,8 +153,9 @@ package mhprimary
 //@   ensures name == fname(basePath, fileNum)
 
 //@ func readHeader(filePath string) (h Header, err error)
-//@   trusted reads the header file (encoding/json round trip of what writeHeader wrote)
+//@   trusted reads the header file (encoding/json round trip of what writeHeader wrote; the recorded file size is one Open accepted: 1..2^30)
 //@   pure
+//@   ensures err == nil ==> h.MaxFileSize > 0 && h.MaxFileSize <= (1 << 30)
 
 //@ func writeHeader(headerPath string, header Header) (err error)
 //@   trusted the header file is rewritten in place by os.WriteFile (finding F11: not atomic; see DESIGN.md)
@@ -279,11 +280,37 @@ package mhprimary
 //@   loop 0 invariant gc.stop == old(gc.stop) && gc.done == old(gc.done) && !closed(gc.done) && t != nil && fresh(t.C) && (gcDone == nil || fresh(gcDone))
 
 // Open / StartGC as seen by package store (OpenStore): opaque constructors.
-//@ func Open(path string, freeList *freelist.FreeList, fileCache *filecache.FileCache, maxFileSize uint32) (mp *MultihashPrimary, err error)
-//@   trusted T5 contract pending for the constructor body (header check, upgrade, last-file search); see DESIGN.md 10
+// Open (C02, C09, C17): a recorded file size that differs from the requested one is refused
+// before anything is written or opened; the header is written only when none existed (after
+// the legacy upgrade); the primary handed back appends at the end of the last file, its record
+// cursor (where Put predicts locations) equals its flush cursor (where flushBlock writes), and
+// its invariant holds.
+//@ func Open(path string, freeList *freelist.FreeList, fileCache *filecache.FileCache, maxFileSize uint32) (mp *MultihashPrimary, err error)  property C02 C09 C17
+//@   modifies fp(IO), fp(CTX), heap("bufio."), heap("freelist.FreeList")
 //@   fresh mp
-//@   ensures err == nil ==> mp != nil && !PS(mp).$closed && !PS(mp).$pending
-//@   ensures err != nil ==> mp == nil
+//@   ghost var gexisting bool = false
+//@   ghost var gend int = 0
+//@   ghost at after call mhprimary.readHeader#0: gexisting = ($r1 == nil)
+//@   ghost at after call (*os.File).Seek#0: gend = $r0
+//@   abstract gap GAP-2: pools+files implement the ghost primary records
+//@   abstract ensures err == nil ==> !PS(mp).$closed && !PS(mp).$pending
+// input invariant: a primary file is smaller than 8 GiB (records start below the 2^30 limit and are smaller than 2^31)
+//@   assume at after call (*os.File).Seek#0: @format-primary-file-size $r0 < 8589934592
+//@   assert at before call mhprimary.upgradePrimary#0: @C09-upgrade-only-without-header !gexisting
+//@   assert at before call mhprimary.writeHeader#0: @C09-header-written-only-when-none-existed !gexisting && $a1.MaxFileSize == maxFileSize
+//@   assert at before call mhprimary.findLastPrimary#0: @C09-size-checked-first gexisting && header.MaxFileSize == maxFileSize
+//@   assert at before call os.OpenFile#0: @C09-file-opened-only-after-config-check (gexisting ==> header.MaxFileSize == maxFileSize) && $a0 == fname(path, lastPrimaryNum)
+//@   ensures @opened err == nil ==> mp != nil && inv(mp) && mp.gc == nil && !mp.closed
+//@   ensures @C02-cursors-agree-at-end-of-last-file err == nil ==> mp.length == gend && mp.recPos == mp.length && mp.recFileNum == mp.fileNum && mp.file.$open && len(mp.nextPool.blocks) == 0 && len(mp.curPool.blocks) == 0
+//@   ensures @failed err != nil ==> mp == nil
+
+//@ func upgradePrimary(ctx context.Context, filePath string, headerPath string, maxFileSize uint32, freeList *freelist.FreeList) (last uint32, err error)
+//@   trusted T5 contract pending: converts a legacy single-file primary (chunkOldPrimary is under contract); no-op when there is none
+//@   modifies heap("freelist.FreeList"), ctx.$done
+
+//@ func findLastPrimary(basePath string, fileNum uint32) (last uint32, err error)
+//@   trusted probes primary file names upwards from fileNum with os.Stat
+//@   pure
 
 //@ func (mp *MultihashPrimary) StartGC(freeList *freelist.FreeList, interval time.Duration, timeLimit time.Duration, updateIndex UpdateIndexFunc)
 //@   trusted starts the collector goroutine (newGC); its body is verified separately (primaryGC.run)
